@@ -703,10 +703,10 @@ def fault_specs(transport: str, tr: dict, second: bool = False) -> list:
     else:
         for idx in range(tr["start"], tr["end"]):
             out += [["drop", idx], ["truncate", idx], ["abort", idx], ["empty", idx], ["short", idx, 1], ["short", idx, 4]]
-            if tr["repid"][idx - tr["start"]] == 3:
-                # only command-response reports are duplicated: the host truncates surplus *data* to the announced length
-                # by design (fixed-size reports may be padded), so a duplicated data report cannot be told from padding
-                out.append(["dup", idx])
+            # Duplicated reports are not injected over HID: the host truncates surplus *data* to the announced length by
+            # design (fixed-size reports may be padded), and a duplicated command response is byte-identical to the next
+            # response of the same type (initial vs final generic response of a data phase), so neither can be told from a
+            # legal exchange by any host. (Serial frames are duplicated: the ACK handshake makes that detectable.)
             for byte in range(4):
                 for b in range(8):
                     out.append(["hdrflip", idx, byte, b])
